@@ -209,6 +209,9 @@ type rwTaskRec struct {
 	// closed (so it cannot have been queued on that incarnation)
 	inClosedWindow  bool
 	ownerIncsAtEmit int // number of incarnations the owning target had had when this copy reached the proxy
+	// ownerGoneAtEmit: every incarnation the owning target had had by then had completely finished (handler returned):
+	// the task cannot have been queued on any of them
+	ownerGoneAtEmit bool
 }
 
 type rwDelivery struct {
@@ -337,7 +340,15 @@ type rwWorld struct {
 func rwPool(nt int) [][][2]string {
 	pool := make([][][2]string, nt)
 	for n := 0; ; n++ {
+		// workflow ids are arbitrary user strings: every third candidate carries leading / trailing white space, whose
+		// owner is the shard of the exact string
 		ns, wf := "ns-id-1", fmt.Sprintf("wf-%d", n)
+		switch n % 6 {
+		case 2:
+			wf = fmt.Sprintf("wf-%d ", n)
+		case 5:
+			wf = fmt.Sprintf(" wf %d\t", n)
+		}
 		j := int(servercommon.WorkflowIDToHistoryShard(ns, wf, int32(nt))) - 1
 		if len(pool[j]) < 3 {
 			pool[j] = append(pool[j], [2]string{ns, wf})
@@ -670,6 +681,14 @@ func (w *rwWorld) emit(o rwOp) {
 		rec := &rwTaskRec{src: s.idx, id: id, marker: marker, target: j, original: proto.Clone(task).(*replicationv1.ReplicationTask), srcInc: len(s.incs) - 1, msgIndex: len(s.sentMsgs)}
 		rec.inClosedWindow = w.windowTarget == j && w.windowParked()
 		rec.ownerIncsAtEmit = len(w.targets[j].incs)
+		rec.ownerGoneAtEmit = len(w.targets[j].incs) > 0
+		for _, inc := range w.targets[j].incs {
+			select {
+			case <-inc.done:
+			default:
+				rec.ownerGoneAtEmit = false
+			}
+		}
 		w.byMarker[marker] = rec
 		s.allTasks = append(s.allTasks, rec)
 		recs = append(recs, rec)
@@ -919,7 +938,7 @@ func (w *rwWorld) classifyPair(s *rwSource, a rwSourceAck, id int64) string {
 			continue
 		}
 		owner = r.target
-		if r.inClosedWindow {
+		if r.inClosedWindow || r.ownerGoneAtEmit {
 			// ... unless a later incarnation of the owner ended as well: the task may have been queued on that one
 			later := false
 			for k, inc := range w.targets[r.target].incs {
@@ -943,7 +962,7 @@ func (w *rwWorld) classifyPair(s *rwSource, a rwSourceAck, id int64) string {
 	if !delivered && closedWindow {
 		// it reached the proxy when the dead incarnation's channel was already closed: it was never queued on that
 		// incarnation, the proxy dropped it
-		return "dropped_after_the_target_sender_closed_its_channel"
+		return "skipped_while_its_target_had_no_stream_that_could_hold_it"
 	}
 	if !delivered && owner >= 0 {
 		t := w.targets[owner]
